@@ -1457,7 +1457,8 @@ void MatrixColSDEV(matrix* m, dvector *colsdev)
     }
 
     /* average of the column j;*/
-    average /= (double)n;
+    if(n > 0)
+      average /= (double)n;
 
     var = +0.f;
     n = 0;
@@ -1470,7 +1471,10 @@ void MatrixColSDEV(matrix* m, dvector *colsdev)
       }
     }
     /* sample variance: is used whe the average of data is not known so you need to extimate the data average */
-    var = var/(n-1);
+    if(n > 1)
+      var = var/(n-1);
+    else /* no or one observed value: no spread, not 0/0 */
+      var = 0.f;
 
     /* standard deviation calculation */
     DVectorAppend(colsdev, sqrt(var));
@@ -1496,7 +1500,8 @@ void MatrixColRMS(matrix* m, dvector *colrms)
     }
 
     /* average of the column j;*/
-    a /= (double)n;
+    if(n > 0)
+      a /= (double)n;
     /* standard deviation calculation */
     DVectorAppend(colrms, sqrt(a));
   }
@@ -1522,7 +1527,8 @@ void MatrixColVar(matrix* m, dvector *colvar)
     }
 
     /* average of the column j;*/
-    average /= (double)n;
+    if(n > 0)
+      average /= (double)n;
 
     var = +0.f;
     n = 0;
@@ -1536,7 +1542,10 @@ void MatrixColVar(matrix* m, dvector *colvar)
       }
     }
     /* sample variance: is used whe the average of data is not known so you need to extimate the data average */
-    var = var/(double)(n-1);
+    if(n > 1)
+      var = var/(double)(n-1);
+    else /* no or one observed value: no spread, not 0/0 */
+      var = 0.f;
 
     /* standard deviation calculation */
     DVectorAppend(colvar, var);
